@@ -23,6 +23,7 @@ func runC17(c *Ctx) {
 	runC17Ids(c)
 	runC17Two(c)
 	runC17Protocol(c)
+	runC17Followup(c)
 }
 
 // ---- (c) two branches prepared over one pooled connection, then phase two for each: every phase-two
